@@ -5,6 +5,7 @@ import (
 	"go/ast"
 	"go/token"
 	"go/types"
+	"sort"
 	"strings"
 
 	"goblcheck/core"
@@ -90,6 +91,11 @@ func c16CLI(c *core.Ctx) {
 	}
 }
 
+var (
+	c16fe     *fieldEffects
+	c16feProg *core.Program
+)
+
 func c16Envelope(c *core.Ctx) {
 	p := c.P
 	for _, name := range []string{"Correct", "Replicate"} {
@@ -139,6 +145,42 @@ func c16Envelope(c *core.Ctx) {
 			return true
 		})
 		c.Ob("C16-R1", fd.Name()+"#only-clone-on-source-document", fd.Decl.Pos(), clone != nil && bad == "", "the source document is used for something other than Clone: "+bad)
+		// no method of the source envelope (or of its members) that writes fields
+		if c16fe == nil || c16feProg != p {
+			c16fe, c16feProg = newFieldEffects(p), p
+		}
+		mut := ""
+		var mutPos token.Pos
+		ast.Inspect(fd.Decl.Body, func(n ast.Node) bool {
+			call, ok := n.(*ast.CallExpr)
+			if !ok {
+				return true
+			}
+			r := core.RecvExpr(call)
+			if r == nil || core.RootVar(info, r) != recv {
+				return true
+			}
+			fn := core.Callee(info, call)
+			if fn == nil || call == clone || !core.InModule(fn.Pkg()) {
+				return true
+			}
+			if w := c16fe.writes[fn]; len(w) > 0 && mut == "" {
+				var names []string
+				for f := range w {
+					names = append(names, f.Name())
+				}
+				sort.Strings(names)
+				if len(names) > 4 {
+					names = append(names[:4], "...")
+				}
+				mut, mutPos = fmt.Sprintf("%s, which writes %v", core.FuncName(fn), names), call.Pos()
+			}
+			return true
+		})
+		if !mutPos.IsValid() {
+			mutPos = fd.Decl.Pos()
+		}
+		c.Ob("C16-R1", fd.Name()+"#no-mutating-call-on-source", mutPos, mut == "", "the operation calls a field-writing method on the source envelope: "+mut+" — the source (and its digest, hence its signatures) can change")
 		if clone == nil {
 			continue
 		}
@@ -481,6 +523,38 @@ func c16Requirements(c *core.Ctx) {
 			return true
 		})
 		c.Ob("C16-R3", vfd.Name()+"#enforces:"+fname, vfd.Decl.Pos(), ok, "the correction definition's "+fname+" requirement never leads to a refusal")
+	}
+	// the merge of regime and addon definitions carries every field of both operands
+	mfd := p.Func("tax", "CorrectionDefinition", "Merge")
+	if mfd == nil {
+		c.Ob("C16-R3", "UNRESOLVED:tax.CorrectionDefinition.Merge", token.NoPos, false, "method not found")
+		return
+	}
+	minfo := mfd.Pkg.TypesInfo
+	msig := mfd.Obj.Type().(*types.Signature)
+	if msig.Params().Len() != 1 {
+		c.Undecided("C16-R3", mfd.Name(), mfd.Decl.Pos(), "unexpected signature")
+		return
+	}
+	_, st := core.StructOf(msig.Recv().Type())
+	for _, operand := range []*types.Var{msig.Recv(), msig.Params().At(0)} {
+		read := map[string]bool{}
+		ast.Inspect(mfd.Decl.Body, func(n ast.Node) bool {
+			if se, ok := n.(*ast.SelectorExpr); ok {
+				if f := core.FieldOf(minfo, se); f != nil && core.VarOf(minfo, se.X) == operand {
+					read[f.Name()] = true
+				}
+			}
+			return true
+		})
+		for i := 0; st != nil && i < st.NumFields(); i++ {
+			f := st.Field(i)
+			if jn, _ := core.JSONName(st.Tag(i), f.Name()); jn == "" {
+				continue
+			}
+			c.Ob("C16-R3", fmt.Sprintf("%s#reads:%s.%s", mfd.Name(), operand.Name(), f.Name()), mfd.Decl.Pos(), read[f.Name()],
+				fmt.Sprintf("the merged correction definition never reads %s.%s: what the regime or an addon requires through it (e.g. a reason) is lost when definitions are combined", operand.Name(), f.Name()))
+		}
 	}
 }
 
